@@ -15,6 +15,23 @@ def add(pid, technique, text, note, ref=None):
     CHECKS[pid] = (technique, text, note, ref or f"DESIGN.md section 3, {pid}")
 
 
+add('C01',
+    "Hypothesis over grid x model x source x initial field x full solver "
+    "configuration product; implication oracle 'reported success => "
+    "independently recomputed residual < tol*||s||' with the checker's "
+    "assembled operator, plus report-consistency invariants",
+    "Exploration: emg3d.solve / solve_source are run on generated small "
+    "problems (2..12 cells per direction, any parity) with configurations "
+    "drawn from the whole documented product; whenever success is reported "
+    "(info dict, or the printed warning/one-liner/log when return_info is "
+    "off) the residual of the returned or in-place field is recomputed with "
+    "the reference operator and compared with tol*||s||; PEC, dtype, "
+    "return shape, error figures, zero-source and exit/message consistency "
+    "are checked on every run. Both outcomes (success/failure) occur in "
+    "quantity.",
+    "Trusted: vp/refop.py (cross-validated by C02); slack tol*||s||*1e-9 + "
+    "1e4 eps || |A||e|+|s| ||. Grids <= 800 cells in the generated tier.")
+
 add('C02',
     "Hypothesis-generated coefficients x enumerated grid shapes {2..5}^3; "
     "full interior edge basis through emg3d.core.amat_x; differential "
